@@ -206,6 +206,23 @@ class C13(Prop):
                 return {"t": "call", "m": m, "a": [E({k: b"7" for k in ks})], "k": {}}
             return {"t": "call", "m": m, "a": [E(ks)], "k": {}}
 
+        if ra >= 1 and rng.random() < 0.1:
+            # a server fails for the first time; when its retry is due the next call for one of its keys is one the
+            # client refuses before any network use (an illegal argument).  That call says nothing about the
+            # server's health: the failure count goes on from where it was.
+            i = rng.randrange(nn)
+            tgt = names[i]
+            down[i] = rng.choice(DOWN_KINDS)
+            steps.append({"t": "node", "id": i, "health": down[i]})
+            steps.append(op(tgt))
+            steps.append({"t": "advance", "dt": q(rt + 8 * TICK)})
+            key = rng.choice(owned[tgt])
+            bad = rng.choice([("incr", [E(key), "1"], {}), ("touch", [E(key)], {"expire": "x"}),
+                              ("set", [E(key), "non-ascii \u00e9"], {}), ("decr", [E(key), None], {})])
+            steps.append({"t": "call", "m": bad[0], "a": bad[1], "k": bad[2], "tag": "bad-input"})
+            for _ in range(ra + 3):
+                steps.append(op(tgt))
+                steps.append({"t": "advance", "dt": q(rt + 8 * TICK)})
         if rng.random() < 0.25:
             i = rng.randrange(nn)
             kind = rng.choice(DOWN_KINDS)
